@@ -256,6 +256,11 @@ func (pdb *PebbleKV) BulkWrite(u func(tx kvi.KVBulkWrite) error) error {
 	batch := pdb.db.NewBatch()
 	ptx := &pebbleBulkWrite{pdb.db, batch, nil, nil, 0}
 	err := u(ptx)
+	if err != nil {
+		//a failed bulk write leaves nothing behind, as in the other drivers
+		batch.Close()
+		return err
+	}
 	batch.Commit(nil)
 	batch.Close()
 	if ptx.lowest != nil && ptx.highest != nil {
